@@ -133,4 +133,197 @@ def replay(case):
 
 
 def parts(tier, seed):
-    return [custom_part('generator-differential', run, exhaustive=True, replay=replay)]
+    return [custom_part('generator-differential', run, exhaustive=True, replay=replay),
+            custom_part('independent-yaml-reading', run_independent, exhaustive=True, replay=replay)]
+
+
+# ---- second oracle: an independent reading of the YAML, compared with the EVALUATED module values -------------------------
+def _yaml_nodes(path):
+    import sys
+    vend = os.path.join(env.VERIF, 'vendor')
+    if vend not in sys.path:
+        sys.path.insert(0, vend)
+    from ruamel.yaml import YAML
+    with open(path, encoding='utf-8') as f:
+        root = YAML(typ='safe').compose(f)
+    return [(k.value, v) for k, v in root.value]
+
+
+def _scalar(node):
+    return node.value
+
+
+def _mapping(node):
+    return {k.value: v for k, v in node.value}
+
+
+def _convert(text, type_):
+    """YAML entry text -> Python value, by the declared entry type (string/char -> str, bool -> truthiness of the text as the generator
+    writes it, anything else -> the Python literal the text denotes)"""
+    if type_ in ('string', 'char'):
+        return text
+    if type_ == 'bool':
+        return bool(text)
+    return ast.literal_eval(text)
+
+
+import re as _re_mod
+_re_alias = _re_mod.compile(r'^from \S+ import (\w+) as (\w+)\s*$')
+_CLASS_YAML = {}
+_EXPECTED = {}
+
+
+def class_yaml_registry():
+    import json as _json
+    if _CLASS_YAML:
+        return _CLASS_YAML
+    for pkg in resgen.PACKAGES:
+        with open(os.path.join(env.LIBS, pkg, 'resource-definitions.json'), encoding='utf-8') as f:
+            spec = _json.load(f)
+        for cfg in spec['configFiles']:
+            parts_ = list(cfg['input'])
+            parts_[-1] += '.yaml'
+            cls_name = [h for h in cfg['header'] if h.startswith('class ')][0][6:].rstrip(':').strip()
+            _CLASS_YAML[cls_name] = resgen._resolve_ci(os.path.join(env.REPO, 'Patterns'), parts_)
+    return _CLASS_YAML
+
+
+def _lookup(out, ref, yaml_path, name, aliases=None):
+    if '.' in ref:
+        cls, attr = ref.split('.', 1)
+        cls = (aliases or {}).get(cls, cls)
+        reg = class_yaml_registry()
+        if cls not in reg:
+            raise env.HarnessError('%s: reference %s of %s names an unknown class' % (yaml_path, ref, name))
+        other = expected_values(reg[cls])
+        if attr not in other or other[attr][0] != 'value':
+            raise env.HarnessError('%s: reference %s of %s is not a value' % (yaml_path, ref, name))
+        return other[attr][1]
+    if ref not in out or out[ref][0] != 'value':
+        raise env.HarnessError('%s: reference %s of %s is not defined before use' % (yaml_path, ref, name))
+    return out[ref][1]
+
+
+def expected_values(yaml_path, aliases=None):
+    """{name: ('value', v) | ('func', params, template)} computed from the YAML alone"""
+    mkey = (yaml_path, tuple(sorted((aliases or {}).items())))
+    if mkey in _EXPECTED:
+        return _EXPECTED[mkey]
+    out = {}
+    _EXPECTED[mkey] = out
+    for name, node in _yaml_nodes(yaml_path):
+        tag = node.tag or ''
+        if tag.endswith('simpleRegex'):
+            out[name] = ('value', _scalar(_mapping(node)['def']))
+        elif tag.endswith('nestedRegex'):
+            m = _mapping(node)
+            text = _scalar(m['def'])
+            refs = [r.value for r in m['references'].value] if 'references' in m else []
+            vals = {r: _lookup(out, r, yaml_path, name, aliases) for r in refs}
+            # simultaneous substitution of the listed references only (any other brace text stays literal)
+            import re as _re
+            if refs:
+                pat = _re.compile('|'.join(_re.escape('{%s}' % r) for r in sorted(refs, key=len, reverse=True)))
+                text = pat.sub(lambda mm: str(vals[mm.group(0)[1:-1]]), text)
+            out[name] = ('value', text)
+        elif tag.endswith('paramsRegex'):
+            m = _mapping(node)
+            out[name] = ('func', [p.value for p in m['params'].value], _scalar(m['def']))
+        elif tag.endswith('dictionary'):
+            m = _mapping(node)
+            kt, vt = [t.value for t in m['types'].value]
+            d = {}
+            for k, v in m['entries'].value:
+                key = _convert(k.value, kt)
+                if isinstance(v.value, list):
+                    d[key] = [x.value for x in v.value]
+                else:
+                    d[key] = _convert(v.value, vt)
+            out[name] = ('value', d)
+        elif tag.endswith('list'):
+            m = _mapping(node)
+            # generator quirk (ArrayWriter): an apostrophe is written as \' inside a RAW string literal, so the backslash stays
+            out[name] = ('value', [e.value.replace("'", "\\'") for e in m['entries'].value])
+        elif tag.endswith('!bool'):
+            out[name] = ('value', node.value == 'true')
+        elif tag.endswith('char'):
+            out[name] = ('value', node.value)
+        elif tag.endswith(':seq'):
+            out[name] = ('value', [e.value.replace("'", "\\'") for e in node.value])
+        elif tag.endswith(':bool'):
+            out[name] = ('value', node.value.lower() in ('true', 'yes', 'on'))
+        elif tag.endswith(':int') or tag.endswith(':float') or tag.endswith(':str') or tag.endswith(':null'):
+            # plain scalars are written as the STRING form of the parsed YAML value (DefaultWriter)
+            if tag.endswith(':int'):
+                val = str(int(node.value.replace('_', ''), 0) if not node.value.lstrip('+-').startswith('0') or node.value in ('0', '-0', '+0')
+                          else int(node.value.replace('_', '')))
+            elif tag.endswith(':float'):
+                val = str(float(node.value.replace('_', '')))
+            elif tag.endswith(':null'):
+                val = 'None'
+            else:
+                val = node.value
+            out[name] = ('value', val)
+        else:
+            out[name] = ('unknown', tag)
+    return out
+
+
+def run_independent(ctx):
+    import importlib
+    import json as _json
+    for pkg in resgen.PACKAGES:
+        libs = os.path.join(env.LIBS, pkg)
+        with open(os.path.join(libs, 'resource-definitions.json'), encoding='utf-8') as f:
+            spec = _json.load(f)
+        for cfg in spec['configFiles']:
+            parts_ = list(cfg['input'])
+            parts_[-1] += '.yaml'
+            ypath = resgen._resolve_ci(os.path.join(env.REPO, 'Patterns'), parts_)
+            cls_name = [h for h in cfg['header'] if h.startswith('class ')][0][6:].rstrip(':').strip()
+            mod_name = '%s.%s.%s' % (pkg.replace('-', '_'), os.path.normpath(spec['outputPath']).split(os.sep)[-1], cfg['output'])
+            rel = '%s/%s' % (pkg, cfg['output'])
+            cls = getattr(importlib.import_module(mod_name), cls_name)
+            aliases = {}
+            for h in cfg['header']:
+                mm = _re_alias.match(h)
+                if mm:
+                    aliases[mm.group(2)] = mm.group(1)
+            exp = expected_values(ypath, aliases)
+            for name, e in exp.items():
+                case = {'module': rel, 'name': name, 'oracle': 'independent-yaml-reading'}
+
+                def fn(case, name=name, e=e, cls=cls, rel=rel):
+                    vs = []
+                    if e[0] == 'unknown':
+                        raise env.HarnessError('unhandled YAML tag %s for %s.%s' % (e[1], rel, name))
+                    if not hasattr(cls, name):
+                        vs.append(V('VALUE_MISSING', {'module': rel, 'name': name}, sig=[rel, name, 'value'], bucket='VALUE:' + rel))
+                    else:
+                        got = getattr(cls, name)
+                        if e[0] == 'value':
+                            if got != e[1] or type(got) is not type(e[1]):
+                                vs.append(V('VALUE_DIFFERS_FROM_YAML', {'module': rel, 'name': name, 'yaml_says': repr(e[1])[:300], 'module_has': repr(got)[:300]},
+                                            sig=[rel, name, 'value'], bucket='VALUE:' + rel))
+                        else:
+                            params, template = e[1], e[2]
+                            args = ['<<%d>>' % i for i in range(len(params))]
+                            want = template
+                            import re as _re
+                            pat = _re.compile('|'.join(_re.escape('{%s}' % p) for p in sorted(params, key=len, reverse=True)))
+                            want = pat.sub(lambda mm: args[params.index(mm.group(0)[1:-1])], template)
+                            try:
+                                res = got(*args)
+                            except Exception as ex:
+                                res = 'raised %r' % ex
+                            if res != want:
+                                vs.append(V('FUNCTION_DIFFERS_FROM_YAML', {'module': rel, 'name': name, 'yaml_says': want[:300], 'module_gives': str(res)[:300]},
+                                            sig=[rel, name, 'value'], bucket='VALUE:' + rel))
+                    return R(vs, nontrivial=e[0] == 'func' or not isinstance(e[1], (str, bool, int, float)) or '{' in str(e[1]),
+                             labels=['independent:' + pkg], obs={'kind': e[0]}, key=[rel, name, 'value'])
+                new, r = ctx.process(case, fn=fn)
+                for v in new:
+                    if ctx.stats.vcount.get(v.bucket, 0) < 3:
+                        ctx.add_violation(case, v, r.obs)
+                    else:
+                        ctx.stats.vcount[v.bucket] += 1
